@@ -28,8 +28,8 @@ Proof. intros. apply conflict_raises; auto. apply run_inv. Qed.
 Lemma raise_unchanged_run : forall ops o s' c,
   step (run ops) o = (s', Raise c) -> s' = run ops /\ names_existing (run ops) c.
 Proof.
-  intros ops o s' c H. split; [eapply raise_unchanged; eauto|].
-  eapply raise_names_existing; eauto. apply registered_run.
+  intros ops o s' c H. split; [eapply raise_unchanged; eauto; apply run_inv|].
+  eapply raise_names_existing; eauto; [apply run_inv | apply registered_run].
 Qed.
 
 Lemma earlier_stays_run : forall ops o,
@@ -39,7 +39,8 @@ Lemma earlier_stays_run : forall ops o,
   wires_stay (run ops) o (exec (run ops) o).
 Proof.
   intros ops o V. split; [apply children_stay_step | split; [apply drivers_stay_step | apply wires_stay_step]].
-  apply subject_registered_all; auto. apply registered_run.
+  - apply run_inv.
+  - apply subject_registered_all; auto. apply registered_run.
 Qed.
 
 Lemma driver_permanent_run : forall ops1 ops2 w q,
